@@ -40,16 +40,23 @@ func runC04(e *Engine, tier Tier) *PropRun {
 func runC05(e *Engine, tier Tier) *PropRun {
 	o5 := &VCOpts{InlineDepth: 1, CheckTags: map[string]bool{"C05": true}}
 	e.prepareExempt("C05", e.sourceFns(func(fn *ssa.Function, file string) bool {
-		return fn.Parent() == nil && strings.HasPrefix(file, "pkg/sql/tokenizer/")
+		return fn.Parent() == nil && (strings.HasPrefix(file, "pkg/sql/tokenizer/") || file == "pkg/sql/parser/token_conversion.go")
 	}), o5)
-	rs := e.verifyAll(tokenizerFns(e, "toSQLPosition", "getCurrentPosition"), o5, nil)
+	fns := tokenizerFns(e, "toSQLPosition", "getCurrentPosition")
+	// parser side: the position mapping has one entry per parser token, and an error is located at the token the cursor is on
+	for _, k := range []string{"sql/parser.(*tokenConverter).convert", "sql/parser.convertModelTokensWithPositions", "sql/parser.(*Parser).currentLocation"} {
+		if f := e.Fn(k); f != nil {
+			fns = append(fns, f)
+		}
+	}
+	rs := e.verifyAll(fns, o5, nil)
 	return &PropRun{
 		Results: rs, FUC: fucList(rs),
 		Claim: func(o *Obligation) bool {
 			return o.Kind == "post" || o.Kind == "inv-init" || o.Kind == "inv-pres"
 		},
 		Level:       "other",
-		Explanation: "Two clauses of the property, proved for every input and cursor: the locations computed by toSQLPosition / getCurrentPosition (every token start and end, every comment span and every tokenizer error location built from them) are 1-based (Line >= 1, Column >= 1) and their line is one of the input's lines (Line <= number of line starts); loop invariants on both scanning loops.",
-		NotCovered:  []string{"that line and column are the right ones (functional spec lineOf/colOf needs the line-table invariant established by Tokenize's pre-scan: not built)", "monotonicity along the stream and end <= next start", "a token after a comment is located at its own first character", "error locations built from raw cursor fields (3 sites) and parser error locations"},
+		Explanation: "Two clauses of the property, proved for every input and cursor: the locations computed by toSQLPosition / getCurrentPosition (every token start and end, every comment span and every tokenizer error location built from them) are 1-based (Line >= 1, Column >= 1) and their line is one of the input's lines (Line <= number of line starts); loop invariants on both scanning loops. Parser side (the location carried by a position-tracking parser error): the position mapping built by the token conversion has exactly one entry per parser token - also where a compound keyword is expanded into several tokens (postcondition of tokenConverter.convert and convertModelTokensWithPositions, invariants on the conversion loop and on the expansion loop) -, so entry i describes token i; and currentLocation returns the start recorded for the token under the cursor, or the zero location when there is no mapping or the cursor is past it (functional postcondition), never another token's span.",
+		NotCovered:  []string{"that line and column are the right ones (functional spec lineOf/colOf needs the line-table invariant established by Tokenize's pre-scan: not built)", "monotonicity along the stream and end <= next start", "a token after a comment is located at its own first character", "error locations built from raw cursor fields (3 sites)", "that the span stored for parser token i is the span of the source token it came from (content of the mapping; only its length and the look-up are under contract)", "1-based / in-input for every element of the returned token slice as a quantified postcondition of Tokenize: tried, not dischargeable - readPunctuation appends comment spans to t.Comments, the flat per-field heap has no region separation between that slice and the token slice, so the call havocs the Location cells of the tokens already appended"},
 	}
 }
